@@ -109,3 +109,19 @@ let () =
       else if aliased = "1" then Viol "a client-side write handed the caller's own memory to the destination"
       else Pass true
     | _ -> Diff "malformed line")
+
+let () =
+  register "DBU2" (fun i o -> match i, o with
+    | [_], [plain; debug; called; reqpref; respeq] ->
+      if plain <> debug then Viol "DebugUpgrader changes the outcome or the bytes written compared with the plain Upgrader"
+      else if called <> "3" then Viol "DebugUpgrader did not report both request and response"
+      else if reqpref <> "1" then Viol "DebugUpgrader's OnRequest bytes are not the request bytes received"
+      else if respeq <> "1" then Viol "DebugUpgrader's OnResponse bytes are not the bytes written"
+      else Pass true
+    | _ -> Diff "malformed line");
+  register "DBD2" (fun i o -> match i, o with
+    | [_], [plain; debug] ->
+      if plain <> debug then Viol "DebugDialer changes the outcome, loses post-handshake bytes or misreports request/response"
+      else if plain <> "ok:6869:3" then Diff ("plain dialer scenario failed in the harness: " ^ plain)
+      else Pass true
+    | _ -> Diff "malformed line")
